@@ -201,7 +201,7 @@ fn dirty_stack() -> u64 {
 }
 
 macro_rules! proto_mod {
-    ($m:ident, $krate:ident) => {
+    ($m:ident, $krate:ident, [$(($on:expr, $ot:ident)),*]) => {
         mod $m {
             use super::*;
             use $krate::msg::{Connless, Game, System};
@@ -241,6 +241,30 @@ macro_rules! proto_mod {
                                 }
                             }
                         };
+                    }
+                    // Obj::decode_msg / encode_msg of the objects that have a message encoding
+                    macro_rules! go_obj {
+                        ($t:ident) => {
+                            match $krate::snap_obj::$t::decode_msg(&mut w, &mut p) {
+                                Err(e) => MsgObs::Err(format!("{:?}", e), warns(&w)),
+                                Ok(m) => {
+                                    let enc = encode_with(CAP, |p| m.encode_msg(p).map(|b| b.to_vec()));
+                                    let sm = match small {
+                                        None => "-".to_string(),
+                                        Some(c) => {
+                                            let s = encode_with(c, |p| m.encode_msg(p).map(|b| b.to_vec()));
+                                            if s == "cap" || s == "panic" { s } else { "fits".into() }
+                                        }
+                                    };
+                                    MsgObs::Ok { warns: warns(&w), enc, small: sm }
+                                }
+                            }
+                        };
+                    }
+                    if kind.starts_with("omsg:") {
+                        let name = kind.split(':').nth(1).unwrap();
+                        $( if name == $on { return go_obj!($ot); } )*
+                        panic!("the harness has no decode_msg for object {}", name);
                     }
                     match kind {
                         "sys" => go!(System),
@@ -288,10 +312,10 @@ macro_rules! proto_mod {
     };
 }
 
-proto_mod!(tw05, libtw2_gamenet_teeworlds_0_5);
-proto_mod!(tw06, libtw2_gamenet_teeworlds_0_6);
-proto_mod!(tw07, libtw2_gamenet_teeworlds_0_7);
-proto_mod!(ddnet, libtw2_gamenet_ddnet);
+proto_mod!(tw05, libtw2_gamenet_teeworlds_0_5, [("player_input", PlayerInput), ("projectile", Projectile)]);
+proto_mod!(tw06, libtw2_gamenet_teeworlds_0_6, [("player_input", PlayerInput), ("projectile", Projectile)]);
+proto_mod!(tw07, libtw2_gamenet_teeworlds_0_7, [("player_input", PlayerInput), ("projectile", Projectile)]);
+proto_mod!(ddnet, libtw2_gamenet_ddnet, [("player_input", PlayerInput)]);
 
 fn real_msg(proto: &str, kind: &str, demo: bool, small: Option<usize>, bs: &[u8]) -> MsgObs {
     match proto {
@@ -577,6 +601,9 @@ struct Run<'a> {
 }
 
 fn id_prefix(c: &Codec) -> Vec<u8> {
+    if c.kind == "objmsg" {
+        return vec![];
+    }
     let flag = if c.kind == "system" { 1 } else { 0 };
     match &c.id {
         Id::Ord(n) => vint((*n as i32) * 2 + flag),
@@ -589,11 +616,13 @@ fn id_prefix(c: &Codec) -> Vec<u8> {
     }
 }
 
-fn short_kind(k: &str) -> &'static str {
-    match k {
-        "system" => "sys",
-        "game" => "game",
-        _ => "conn",
+/// the kind field of a case line: sys | game | conn | omsg:<object>:<id>
+fn wire_kind(c: &Codec) -> String {
+    match c.kind.as_str() {
+        "system" => "sys".into(),
+        "game" => "game".into(),
+        "objmsg" => format!("omsg:{}:{}", c.name.trim_start_matches("objmsg_"), id_txt(&c.id)),
+        _ => "conn".into(),
     }
 }
 
@@ -620,7 +649,7 @@ impl<'a> Run<'a> {
     /// canonical bytes built from the description: must decode warning-free and re-encode identically
     fn expect_valid(&mut self, c: &Codec, bs: &[u8], what: &str) {
         let small = if bs.len() > 0 { Some(bs.len() - 1) } else { None };
-        let (id, obs) = self.msg(&c.proto, short_kind(&c.kind), false, small, bs, &c.name);
+        let (id, obs) = self.msg(&c.proto, &wire_kind(c), false, small, bs, &c.name);
         let good = match &obs {
             MsgObs::Ok { warns, enc, small: sm } => warns == "-" && *enc == hex(bs) && (small.is_none() || sm == "cap"),
             _ => false,
@@ -631,7 +660,7 @@ impl<'a> Run<'a> {
     }
 
     fn expect_err(&mut self, c: &Codec, bs: &[u8], err: &str, what: &str) {
-        let (id, obs) = self.msg(&c.proto, short_kind(&c.kind), false, None, bs, &c.name);
+        let (id, obs) = self.msg(&c.proto, &wire_kind(c), false, None, bs, &c.name);
         let good = matches!(&obs, MsgObs::Err(e, _) if e == err);
         self.o.check(good, "-", &id, || format!(
             "{} {} ({}): bytes {} violate the description and must be rejected with {}, got {}",
@@ -639,7 +668,7 @@ impl<'a> Run<'a> {
     }
 
     fn expect_accept(&mut self, c: &Codec, bs: &[u8], what: &str) {
-        let (id, obs) = self.msg(&c.proto, short_kind(&c.kind), false, None, bs, &c.name);
+        let (id, obs) = self.msg(&c.proto, &wire_kind(c), false, None, bs, &c.name);
         let good = matches!(&obs, MsgObs::Ok { .. });
         self.o.check(good, "-", &id, || format!("{} {} ({}): bytes {} must decode, got {}", c.proto, c.name, what, hex(bs), obs.txt()));
     }
@@ -677,7 +706,7 @@ fn msg_cases(run: &mut Run, c: &Codec, r: &mut Rng, th: bool) {
                         let follows: usize = parts[i + 1..].iter().map(|p| p.len()).sum();
                         let len = { let mut w = vec![]; Unpacker::new(&ch.bytes).read_int(&mut w).unwrap() };
                         if len >= 0 && (len as usize) <= follows {
-                            run.msg(&c.proto, short_kind(&c.kind), false, None, &bs, &c.name);
+                            run.msg(&c.proto, &wire_kind(c), false, None, &bs, &c.name);
                             continue;
                         }
                     }
@@ -689,7 +718,7 @@ fn msg_cases(run: &mut Run, c: &Codec, r: &mut Rng, th: bool) {
     }
     // every truncation of the base message, and of one with every optional present
     for n in 0..base_bytes.len() {
-        let (_id, _obs) = run.msg(&c.proto, short_kind(&c.kind), false, None, &base_bytes[..n], &c.name);
+        let (_id, _obs) = run.msg(&c.proto, &wire_kind(c), false, None, &base_bytes[..n], &c.name);
     }
     // cut exactly in front of member i: an error unless everything from i on may be absent
     let mut off = id_prefix(c).len();
@@ -709,7 +738,7 @@ fn msg_cases(run: &mut Run, c: &Codec, r: &mut Rng, th: bool) {
         b.push(0);
         run.expect_accept(c, &b, "one excess byte");
         b.extend(r.bytes(5));
-        run.msg(&c.proto, short_kind(&c.kind), false, Some(3), &b, &c.name);
+        run.msg(&c.proto, &wire_kind(c), false, Some(3), &b, &c.name);
     }
     // demo mode: padded to a multiple of four
     for extra in [0u8, 1] {
@@ -717,9 +746,9 @@ fn msg_cases(run: &mut Run, c: &Codec, r: &mut Rng, th: bool) {
         while b.len() % 4 != 0 {
             b.push(extra);
         }
-        run.msg(&c.proto, short_kind(&c.kind), true, None, &b, &c.name);
+        run.msg(&c.proto, &wire_kind(c), true, None, &b, &c.name);
         b.extend([0, 0, 0, 0]);
-        run.msg(&c.proto, short_kind(&c.kind), true, None, &b, &c.name);
+        run.msg(&c.proto, &wire_kind(c), true, None, &b, &c.name);
     }
     // hostile: the right id, then garbage; single-byte corruptions of the base message
     let nrand = if th { 200 } else { 4 };
@@ -727,7 +756,7 @@ fn msg_cases(run: &mut Run, c: &Codec, r: &mut Rng, th: bool) {
         let mut b = id_prefix(c);
         let n = r.below(2 * base_bytes.len() as u64 + 8) as usize;
         b.extend((0..n).map(|_| if r.chance(1, 3) { *r.pick(&[0u8, 1, 0x40, 0x7f, 0x80, 0xff, 0x30, 0x2d]) } else { r.byte() }));
-        run.msg(&c.proto, short_kind(&c.kind), false, Some(r.below(40) as usize), &b, &c.name);
+        run.msg(&c.proto, &wire_kind(c), false, Some(r.below(40) as usize), &b, &c.name);
     }
     let nmut = if th { base_bytes.len().min(200) } else { base_bytes.len().min(12) };
     for _ in 0..nmut {
@@ -735,7 +764,7 @@ fn msg_cases(run: &mut Run, c: &Codec, r: &mut Rng, th: bool) {
         if b.is_empty() { break; }
         let k = r.below(b.len() as u64) as usize;
         b[k] = if r.chance(1, 2) { r.byte() } else { b[k] ^ (1 << r.below(8)) };
-        run.msg(&c.proto, short_kind(&c.kind), false, None, &b, &c.name);
+        run.msg(&c.proto, &wire_kind(c), false, None, &b, &c.name);
     }
     // thorough: random combinations of member choices
     if th {
@@ -743,7 +772,7 @@ fn msg_cases(run: &mut Run, c: &Codec, r: &mut Rng, th: bool) {
             let parts: Vec<Vec<u8>> = all.iter().map(|cs| r.pick(cs).bytes.clone()).collect();
             let mut b = assemble(c, &parts);
             if r.chance(1, 4) { let k = r.below(b.len() as u64 + 1) as usize; b.truncate(k); }
-            run.msg(&c.proto, short_kind(&c.kind), false, None, &b, &c.name);
+            run.msg(&c.proto, &wire_kind(c), false, None, &b, &c.name);
         }
     }
 }
@@ -1010,12 +1039,12 @@ fn main() {
         }
         ncodec += 1;
         match c.kind.as_str() {
-            "system" | "game" | "connless" => {
+            "system" | "game" | "connless" | "objmsg" => {
                 let mut run = Run { o: &mut o };
                 msg_cases(&mut run, c, &mut r, th);
             }
             "obj" => obj_cases(&mut o, c, &mut r, th),
-            _ => {} // objmsg: reached through the message that embeds the object
+            k => panic!("unknown codec kind {} in the tables", k),
         }
     }
     o.count(&format!("codecs:{}", ncodec));
